@@ -1,0 +1,24 @@
+//go:build verif
+
+// Exports for the verification harness in /verif (build tag `verif` only).
+
+package rtmp
+
+import "github.com/q191201771/lal/pkg/base"
+
+// VerifMessage2Chunks exposes message2Chunks with an explicit previous header and chunk size.
+func VerifMessage2Chunks(message []byte, header *base.RtmpHeader, prevHeader *base.RtmpHeader, chunkSize int) []byte {
+	return message2Chunks(message, header, prevHeader, chunkSize)
+}
+
+// VerifMsg returns a copy of the completed message a ChunkComposer callback was given.
+func (stream *Stream) VerifMsg() base.RtmpMsg {
+	return stream.toAvMsg().Clone()
+}
+
+// Unexported constants the Lean model is stated over (regenerated into Generated/C08.lean on every run).
+const (
+	VerifMaxTimestampInMessageHeader = maxTimestampInMessageHeader
+	VerifDefaultChunkSize            = defaultChunkSize
+	VerifMaxHeaderSize               = maxHeaderSize
+)
